@@ -57,6 +57,7 @@ SEARCH_ONLY = [
     "igral / err equal to tests/algorithm_4.py at equal evaluation counts (search only)",
 ]
 
+TINY = 1e-250        # absolute floor of the kernel comparisons (values in the denormal range)
 RUN_TIMEOUT = 10.0   # seconds per run of the learner (a run that does not return is counted, not judged)
 
 
@@ -107,6 +108,8 @@ def judge(mem, tol, out) -> dict:
                  maxdepth=max((i.rdepth for i in L.approximating_intervals), default=0))
         if not (diff <= bound):          # also catches nan
             r["verdict"] = "inaccurate"
+        elif not I.done_criterion(L):
+            r["verdict"] = "criterion"
     elif out.status == "divergent" and not mem.divergent:
         r["verdict"] = "divergent"
     return r
@@ -116,6 +119,9 @@ def signature(family, mode, r) -> str:
     mc = modeclass(mode)
     if r["verdict"] == "divergent":
         return f"C08:{family}:{mc}: DivergentIntegralError raised for a convergent integrand"
+    if r["verdict"] == "criterion":
+        return ("C08:done: done() holds although err != 0, err >= |igral|*tol (the tolerance is relative), "
+                "intervals remain and the removed-interval clause does not apply")
     if r.get("heuristic", 0) and mc == "out-of-order":
         return ("C08:out-of-order: done() while an approximating interval carries the heuristic half-of-parent error "
                 "(its parent's own rule is incomplete); |igral - exact| > max(err, tol*|exact|) + rounding")
@@ -167,10 +173,12 @@ def task_reference(t):
         traj, lst, _L = _with_deadline(lambda: I.learner_trajectory(mem, tol, nref, 4 * nref + 100), 25.0)
     except RunTimeout:
         return {"status": "timeout"}
+    if lst == "internal":
+        return {"status": "internal"}
     by = {}
-    for (n, d, ig, er, _stk) in traj:
-        by[n - d] = (n, d, ig, er)
-    res = {"status": "ok", "ref_status": rst, "learner_status": lst, "states": 0, "literal": 0, "aligned_dup": 0,
+    for (n, d, ig, er, dn) in traj:
+        by[n - d] = (n, d, ig, er, dn)
+    res = {"status": "ok", "done_compared": 0, "done_agree": 0, "done_mismatch": None, "ref_status": rst, "learner_status": lst, "states": 0, "literal": 0, "aligned_dup": 0,
            "repo_ok": 0, "tight_ok": 0, "dup_agree": 0, "mismatch": None, "worst_rel": 0.0,
            "divergent_ref": rst == "divergent", "divergent_learner": lst == "divergent"}
     for k, (nr, ig, er, niv) in enumerate(ref, 1):
@@ -178,8 +186,15 @@ def task_reference(t):
             break
         if niv > 150:              # algorithm_4 drops intervals above 200, the learner above 1000
             break
-        n, d, lig, ler = by[nr]
+        n, d, lig, ler, ldone = by[nr]
         res["states"] += 1
+        ref_done = rst == "finished" and k == len(ref)
+        if d == 0:
+            res["done_compared"] += 1
+            res["done_agree"] += ldone == ref_done
+            if ldone != ref_done and res["done_mismatch"] is None:
+                res["done_mismatch"] = {"loop": k, "evaluations": nr, "reference_returned": ref_done, "learner_done": ldone,
+                                        "igral": lig, "err": ler}
         big = max(1.0, abs(ig), abs(er))
         repo = abs(lig - ig) < 1.5e-7 * big and abs(ler - er) < 1.5e-7 * big      # the repo's 7 decimals, scaled
         sc = max(abs(ig), abs(er), 1e-300)
@@ -233,7 +248,7 @@ def kernel_checks(chk: Check, rec: I.Recorder, EK: I.ExactKernel, stats: dict, t
         stats["coeffs"] += 1
         stats["coeffs_nonfinite"] += bool(nans)
         stats["worst_coeffs"] = max(stats["worst_coeffs"], d / nrm)
-        if not d <= 1e-10 * nrm:
+        if not d <= 1e-10 * nrm + TINY:
             flag("_calc_coeffs differs from the exact evaluation of V_inv @ fx (+ downdate)",
                  {"depth": depth, "nans": nans, "rel": d / nrm})
         # definition: the coefficients interpolate the finite values at the Clenshaw-Curtis nodes,
@@ -247,7 +262,7 @@ def kernel_checks(chk: Check, rec: I.Recorder, EK: I.ExactKernel, stats: dict, t
             worst = max(worst, abs(I.interp(c, nodes[j]) - float(fx[j])))
         tolx = (1e-10 if not nans else 1e-7) * fmax * n
         stats["worst_interp"] = max(stats["worst_interp"], worst / fmax)
-        if not worst <= tolx:
+        if not worst <= tolx + TINY:
             flag("coefficients do not interpolate the function values at the nodes -cos(j pi/(n-1))",
                  {"depth": depth, "nans": nans, "max_residual_rel": worst / fmax})
         if nans and any(float(c[n - 1 - t]) != 0.0 for t in range(len(nans))):
@@ -255,7 +270,7 @@ def kernel_checks(chk: Check, rec: I.Recorder, EK: I.ExactKernel, stats: dict, t
     for a, b, c, ig in rec.igrals:
         ie = EK.calc_igral(a, b, c[0])
         stats["igral"] += 1
-        if not abs(Fraction(ig) - ie) <= Fraction(1, 10 ** 10) * abs(ie):
+        if not abs(Fraction(ig) - ie) <= Fraction(1, 10 ** 10) * abs(ie) + Fraction(TINY):
             flag("calc_igral differs from (b - a) c[0] / sqrt 2", {"a": a, "b": b, "c0": float(c[0]), "igral": ig,
                                                                     "exact": float(ie)})
     # igral against the Clenshaw-Curtis rule applied to the recorded values (finite ones only)
@@ -268,15 +283,15 @@ def kernel_checks(chk: Check, rec: I.Recorder, EK: I.ExactKernel, stats: dict, t
         ref = float(c[0]) / math.sqrt(2.0)
         fmax = max(abs(float(v)) for v in fx) or 1e-300
         stats["cc"] += 1
-        if not abs(q - ref) <= 1e-10 * fmax:
+        if not abs(q - ref) <= 1e-10 * fmax + TINY:
             flag("c[0]/sqrt 2 is not the Clenshaw-Curtis quadrature of the node values",
                  {"depth": depth, "cc": q, "c0_over_sqrt2": ref})
     for a, b, c_old, c_new, err, ret, shifted in rec.errs:
         e2 = EK.err_sq(a, b, c_old, c_new)
-        ee = math.sqrt(float(e2))
+        ee = I.fsqrt(e2)
         scale = abs(b - a) * max(I.fnorm(c_old), I.fnorm(c_new), 1e-300)
         stats["err"] += 1
-        if not abs(err - ee) <= 1e-10 * scale:
+        if not abs(err - ee) <= 1e-10 * scale + TINY:
             flag("calc_err differs from (b - a) * || pad(c_old) - pad(c_new) ||_2",
                  {"a": a, "b": b, "err": err, "exact": ee, "scale": scale})
         if shifted is not None:
@@ -286,7 +301,7 @@ def kernel_checks(chk: Check, rec: I.Recorder, EK: I.ExactKernel, stats: dict, t
             nrm = max(I.fnorm(pc), 1e-300)
             d = I.fnorm([Fraction(float(x)) - y for x, y in zip(c_old, ce)])
             stats["shift"] += 1
-            if not d <= 1e-10 * nrm:
+            if not d <= 1e-10 * nrm + TINY:
                 flag("c_old of a child differs from T_left/T_right[:, :n_parent] @ parent.c",
                      {"left": left, "rel": d / nrm})
             # definition: c_old represents the parent's interpolant on the child's half
@@ -295,7 +310,7 @@ def kernel_checks(chk: Check, rec: I.Recorder, EK: I.ExactKernel, stats: dict, t
             for t in (-1.0, -0.6, -0.2, 0.3, 0.7, 1.0):
                 worst = max(worst, abs(I.interp(c_old, t) - I.interp(pc, (t + s) / 2.0)))
             stats["worst_shift"] = max(stats["worst_shift"], worst / nrm)
-            if not worst <= 1e-9 * nrm * len(pc):
+            if not worst <= 1e-9 * nrm * len(pc) + TINY:
                 flag("shifted coefficients do not represent the parent's interpolant on the child's half interval",
                      {"left": left, "max_dev_rel": worst / nrm})
     for kind, detail in bad[:3]:
@@ -538,7 +553,11 @@ def run(chk: Check) -> int:
         rng = chk.rng("poly33", i)
         params = I.draw("poly", rng)
         mem = I.build("poly", params)
-        L = I.run_sequential(mem, 1e-8, 33)
+        try:
+            L = I.run_sequential(mem, 1e-8, 33)
+        except I.INTERNAL_ERRORS:
+            hist["sequential_internal_errors"] += 1
+            continue
         sc = max(abs(mem.exact), I.l1_scale(L), 1e-300)
         rel = abs(float(L.igral) - mem.exact) / sc
         relerr = float(L.err) / sc
@@ -569,10 +588,14 @@ def run(chk: Check) -> int:
            "both_divergent": 0, "only_reference_divergent": 0, "only_learner_divergent": 0}
     with cf.ProcessPoolExecutor(max_workers=14, mp_context=ctx) as ex:
         rres = list(ex.map(task_reference, rtasks, chunksize=2))
+    ref.update(done_compared=0, done_agree=0, internal_errors=0)
     for (fam, params, tol), r in zip(rmetas, rres):
         if r["status"] != "ok":
             ref["timeouts"] += r["status"] == "timeout"
+            ref["internal_errors"] += r["status"] == "internal"
             continue
+        ref["done_compared"] += r["done_compared"]
+        ref["done_agree"] += r["done_agree"]
         ref["members"] += 1
         ref["states_compared_literal"] += r["literal"]
         ref["agree_repo_tolerance"] += r["repo_ok"]
@@ -589,6 +612,12 @@ def run(chk: Check) -> int:
             if sig not in first_fail:
                 m = r["mismatch"]
                 first_fail[sig] = (fam, params, tol, "reference", {"what": m, "kind": "reference", "loops": loops})
+        if r["done_mismatch"]:
+            sig = (f"C08:algorithm_4:{fam}: done() disagrees with the termination of tests/algorithm_4.py at an equal "
+                   "number of evaluations")
+            if sig not in first_fail:
+                first_fail[sig] = (fam, params, tol, "reference", {"what": r["done_mismatch"], "kind": "reference_done",
+                                                                    "loops": loops})
     chk.extra["reference_algorithm_4"] = ref
     if ref["states_compared_literal"] < 3 * len(rtasks):
         chk.broke("vacuity", "the comparison with tests/algorithm_4.py compared too few states", ref)
@@ -632,11 +661,21 @@ def run(chk: Check) -> int:
 
     # ---- 7. report
     for sig, (fam, params, tol, mode, r) in first_fail.items():
-        if r.get("kind") == "reference":
+        if r.get("kind") == "reference_done":
+            m = r["what"]
+            chk.fail(sig, f"{fam} {params} tol={tol:.3g}: after {m['evaluations']} evaluations (loop {m['loop']}) algorithm_4 "
+                     f"{'returned' if m['reference_returned'] else 'continues'} but learner.done() is {m['learner_done']} "
+                     f"(igral={m['igral']!r}, err={m['err']!r})",
+                     {"kind": "reference", "family": fam, "params": params, "tol": tol, "loops": r["loops"]})
+        elif r.get("kind") == "reference":
             m = r["what"]
             chk.fail(sig, f"{fam} {params} tol={tol:.3g}: after {m['evaluations']} evaluations (loop {m['loop']}) "
                      f"algorithm_4 has igral={m['ref_igral']!r} err={m['ref_err']!r}, the learner igral={m['igral']!r} err={m['err']!r}",
                      {"kind": "reference", "family": fam, "params": params, "tol": tol, "loops": r["loops"]})
+        elif r["verdict"] == "criterion":
+            chk.fail(sig, f"{fam} {params} tol={tol:.3g} delivery={mode}: done() after {r['n_done']} evaluations with "
+                     f"igral={r['igral']!r} err={r['err']!r}: err/|igral| = {r['err'] / max(abs(r['igral']), 1e-300):.3g} >= tol",
+                     {"kind": "accuracy", "family": fam, "params": params, "tol": tol, "mode": mode, "ops": r.get("ops")})
         elif r["verdict"] == "divergent":
             chk.fail(sig, f"{fam} {params} tol={tol:.3g} delivery={mode}: DivergentIntegralError after {r['n']} evaluations",
                      {"kind": "accuracy", "family": fam, "params": params, "tol": tol, "mode": mode, "ops": r.get("ops")})
@@ -686,8 +725,8 @@ def replay(doc) -> int:
             bad += bool(res["verdict"])
         elif kind == "reference":
             res = task_reference((r["family"], r["params"], r["tol"], r["loops"]))
-            print("replayed reference comparison", r["family"], r["params"], "->", res.get("mismatch"))
-            bad += bool(res.get("mismatch"))
+            print("replayed reference comparison", r["family"], r["params"], "->", res.get("mismatch"), res.get("done_mismatch"))
+            bad += bool(res.get("mismatch") or res.get("done_mismatch"))
         elif kind == "poly33":
             mem = I.build("poly", r["params"])
             L = I.run_sequential(mem, 1e-8, 33)
